@@ -25,12 +25,18 @@ import (
 // recorder buffers the order-sensitive outputs of one world so that parallel worlds produce
 // the same evidence / replay numbering on every run.
 type recorder struct {
-	viol    []struct{ sig, label string; detail any }
+	viol []struct {
+		sig, label string
+		detail     any
+	}
 	samples []any
 }
 
 func (r *recorder) violation(sig, label string, detail any) {
-	r.viol = append(r.viol, struct{ sig, label string; detail any }{sig, label, detail})
+	r.viol = append(r.viol, struct {
+		sig, label string
+		detail     any
+	}{sig, label, detail})
 }
 
 type proposal struct {
@@ -83,6 +89,7 @@ type world struct {
 	step      int
 	genesisWL []string
 	nameSeq   int
+	reported  map[string]int
 }
 
 const (
@@ -241,6 +248,16 @@ func (w *world) violation(sig string, detail map[string]any) {
 	if detail == nil {
 		detail = map[string]any{}
 	}
+	// one witness per (signature, mode) and world; repetitions are counted
+	key := fmt.Sprintf("%s|%v", sig, detail["mode"])
+	if w.reported == nil {
+		w.reported = map[string]int{}
+	}
+	w.reported[key]++
+	w.run.Count("violating_observations", 1)
+	if w.reported[key] > 1 {
+		return
+	}
 	detail["config"] = w.cfgInfo()
 	detail["height"] = w.c.Height
 	w.rec.violation(sig, w.label, detail)
@@ -352,6 +369,9 @@ func (w *world) runBlock(ops []*op) *vh.ObservedBlock {
 		pre, _ := ob.Pre[i].View.(*scan)
 		post, _ := ob.Post[i].View.(*scan)
 		outcome := classify(res, ob.Reached[i])
+		if o.Kind != "probe" && strings.HasSuffix(outcome, "other") {
+			w.run.Distinct("unclassified_log", clip(res.Log, 160))
+		}
 		w.account(o, outcome)
 		if !ob.Reached[i] || pre == nil || post == nil {
 			continue
@@ -489,6 +509,8 @@ func logClass(l string) string {
 		return "symbol-equals-denom"
 	case strings.Contains(l, "inactive proposal") || strings.Contains(l, "proposal"):
 		return "gov-rejected"
+	case strings.Contains(l, "insufficient funds"):
+		return "fee-payer-cannot-pay"
 	case strings.Contains(l, "out of gas"):
 		return "out-of-gas"
 	}
